@@ -276,6 +276,17 @@ impl Number {
     }
 
     pub fn modulo(&self, rhs: &Number) -> Option<Number> {
+        // an integer-valued rational is the integer it denotes; as an i32 rational the sum below overflows into a float
+        if let Number::Rational(num) = rhs {
+            if num.is_integer() {
+                return self.modulo(&Number::Fixnum(num.to_i64().unwrap()));
+            }
+        }
+        if let Number::Rational(num) = self {
+            if num.is_integer() {
+                return Number::Fixnum(num.to_i64().unwrap()).modulo(rhs);
+            }
+        }
         match self % rhs {
             Some(num) => &(&num + rhs) % rhs,
             None => None,
@@ -890,18 +901,10 @@ impl Number {
                 Number::BigInt(_) => None,
                 Number::Rational(rhs) => rhs.to_f64().map(|rhs| (lhs / rhs).into()),
             },
-            Number::Rational(lhs) if lhs.is_integer() => match rhs {
-                Number::Fixnum(rhs) => Some((lhs.to_i64().unwrap() / *rhs).into()),
-                Number::Float(rhs) => lhs.to_f64().map(|lhs| (lhs / rhs).trunc().into()),
-                Number::BigInt(rhs) => Some((BigInt::from(lhs.to_i64().unwrap()) / &**rhs).into()),
-                Number::Rational(rhs) => {
-                    if rhs.is_integer() {
-                        Some((lhs / rhs).into())
-                    } else {
-                        None
-                    }
-                }
-            },
+            // an integer-valued rational is the integer it denotes: truncating division, not lhs / rhs
+            Number::Rational(lhs) if lhs.is_integer() => {
+                Number::Fixnum(lhs.to_i64().unwrap()).quotient(rhs)
+            }
             Number::Rational(_) => None,
         }
     }
@@ -928,6 +931,10 @@ impl Rem for &Number {
                 Number::Fixnum(rhs) => Some(lhs.wrapping_rem(*rhs).into()),
                 Number::BigInt(rhs) => Some((BigInt::from(*lhs) % &**rhs).into()),
                 Number::Float(rhs) => Some((*lhs as f64 % rhs).into()),
+                // integer divisor: wrapping_rem, i64::MIN % -1 is 0 and must not overflow inside Ratio
+                Number::Rational(rhs) if rhs.is_integer() => {
+                    Some(lhs.wrapping_rem(rhs.to_i64().unwrap()).into())
+                }
                 Number::Rational(rhs) => {
                     let result = Rational64::from_integer(*lhs)
                         % Rational64::from((*rhs.numer() as i64, *rhs.denom() as i64));
@@ -967,6 +974,10 @@ impl Rem for &Number {
                 Number::Fixnum(rhs) => Some((lhs.to_i64().unwrap() % *rhs).into()),
                 Number::Float(rhs) => lhs.to_f64().map(|lhs| (lhs % rhs).into()),
                 Number::BigInt(rhs) => Some((BigInt::from(lhs.to_i64().unwrap()) % &**rhs).into()),
+                // two integers: i32::MIN % -1 overflows inside Ratio
+                Number::Rational(rhs) if lhs.is_integer() && rhs.is_integer() => {
+                    Some((lhs.to_i64().unwrap() % rhs.to_i64().unwrap()).into())
+                }
                 Number::Rational(rhs) => Some((lhs % rhs).into()),
             },
         }
